@@ -24,7 +24,7 @@ import pandas as pd
 from simkit import simio
 from simkit.engine import Ctx, HarnessError, Refuse, Violation, canon, h64
 from simkit.replica import ReplicaServer
-from simkit.worldbase import BUFS, CHUNKS, WorldBase, file_digest
+from simkit.worldbase import BUFS, CHUNKS, WorldBase, file_digest, lib_logging
 
 SNAP_FIELDS = ("particle_type", "positions", "boxlength", "boxbounds", "realbounds", "hmatrix")
 NL_PATHS = ("neighborlist.dat", "nl_a.dat", "nl_b.dat")
@@ -223,6 +223,7 @@ class World(WorldBase):
             "p_env": rng.choice([0.0, 0.0, 0.1, 0.25]),
             "p_thread": rng.choice([0.0, 0.0, 0.0, 0.15]),
             "huge": rng.random() < float(os.environ.get("VERIF_C18_HUGE", "0.01")),
+            "p_respell": rng.choice([0.0, 0.05, 0.15]),
             "faults": [],
         }
         if batch == "fault":
@@ -246,6 +247,7 @@ class World(WorldBase):
         self.history = {}     # op id -> op (acknowledged, defining ops only are needed for closures)
         self.last_call = {}   # adapter id -> canonical digest of its last result (repeat-call probe)
         self.recent = []      # the last few acknowledged call ops (for echoes)
+        self.plain_by_id = {}  # op id -> (closure ids, canonical result) of recent calls without an object (respelled re-issues)
         self.readers_of = {}  # path -> recent ops that read it
         self.reissue = []     # ops to make again after the file they read was rewritten / an argument was edited
         self.edits = {}       # bundle root ('S3') -> ids of the client's in-place edits of its arrays, ascending
@@ -258,6 +260,8 @@ class World(WorldBase):
             self.printopts = repr(sorted(np.get_printoptions().items(), key=lambda kv: kv[0]))
             self.errstate = repr(sorted(np.geterr().items()))
             self.canary_due = 0
+
+    plain_by_id = None
 
     def teardown(self):
         self.held = []
@@ -319,33 +323,27 @@ class World(WorldBase):
         return int(head[1:])
 
     def closure(self, op):
-        """Ids of the operations that built the inputs of `op`, transitively, ascending."""
+        """Ids of the operations that built the inputs of `op`, transitively, ascending.  What a
+        client did to a pooled array in place between calls is part of the input: every edit made
+        so far to anything the closure mentions (or to something sharing memory with it, see
+        do_edit) is replayed, in order, together with whatever built the edit's own target."""
         need = set()
         stack = [op]
+        me = op.get("id")
         while stack:
             o = stack.pop()
-            deps = set(self.base_of(n) for n in self.refs(o.get("args", {})))
-            if "obj" in o:
-                deps.add(self.base_of(o["obj"]))
+            names = self.refs(o.get("args", {})) + ([o["obj"]] if "obj" in o else []) + ([o["target"]] if "target" in o else [])
+            deps = set(self.base_of(n) for n in names)
             deps.update(o.get("reads", {}).values())
             deps.update(o.get("after", []))
+            for r in {n.split(".")[0] for n in names}:
+                deps.update(i for i in self.edits.get(r, []) if i != me)
             for d in deps:
-                if d not in need and d != o.get("id"):
+                if d not in need and d != o.get("id") and d != me:
                     if d not in self.history:
                         raise Refuse(f"dependency {d} not in history")
                     need.add(d)
                     stack.append(self.history[d])
-        # what a client did to a pooled array in place between calls is part of the input: every
-        # edit made so far to a bundle the closure mentions is replayed, in order
-        roots = set()
-        for o in [op] + [self.history[i] for i in need]:
-            for n in self.refs(o.get("args", {})) + ([o["obj"]] if "obj" in o else []) + ([o["target"]] if "target" in o else []):
-                roots.add(n.split(".")[0])
-        for r in roots:
-            for i in self.edits.get(r, []):
-                if i != op.get("id"):
-                    need.add(i)
-                    need.add(self.base_of(r))
         return sorted(need)
 
     # ------------------------------------------------------------------- generation ----
@@ -366,6 +364,21 @@ class World(WorldBase):
                     continue
                 self.ctx.probe("reissued_after_" + old.get("why", "rewrite"))
                 return self.stamp(op, rng)
+        if self.recent and rng.random() < sw.get("p_respell", 0.0):
+            # a recent call again, its inputs spelled another way (dict items in the opposite
+            # order, plain numbers as numpy scalars): "the same inputs" must give the same result
+            cand = [o for o in self.recent if "obj" not in o and not o.get("respell") and o["id"] in self.plain_by_id
+                    and any(type(v) in (int, float) or (isinstance(v, dict) and "$" in v and self.pool.get(v["$"]) is not None
+                                                        and self.pool[v["$"]].kind == "dict") for v in o.get("args", {}).values())]
+            if cand:
+                old_op = rng.choice(cand)
+                op = copy.deepcopy({k: v for k, v in old_op.items() if k not in ("fault", "id", "client", "why", "printopts", "thread", "loglevel", "printopts_scoped")})
+                op["respell"] = old_op["id"]
+                try:
+                    self.precheck(op)
+                    return self.stamp(op, rng)
+                except Refuse:
+                    pass
         if rng.random() < sw.get("p_edit", 0.0) * (3.0 if sw.get("huge") else 1.0):
             op = self.gen_file_edit(rng) if rng.random() < (0.7 if sw.get("huge") else 0.3) else self.gen_edit(rng)
             if op is not None:
@@ -434,6 +447,8 @@ class World(WorldBase):
                     nev = self.dry_events(lambda: self.exec_call(op, dry=True))
                     if nev > 0:
                         op["fault"] = {"kind": kind, "at": self.pick_fault_event(rng, nev)}
+                        if kind == "oserror_write" and rng.random() < 0.5:
+                            op["fault"]["persist"] = True        # the disk stays full for the rest of the call
                         self.ctx.probe("dry_runs")
             if "fault" not in op:
                 # what the calling client did to its process first (never replayed in the clean
@@ -443,6 +458,10 @@ class World(WorldBase):
                                        "edgeitems": rng.choice([1, 3]), "precision": rng.choice([3, 8])}
                 if rng.random() < sw.get("p_thread", 0.0):
                     op["thread"] = True
+                if op.get("printopts") and rng.random() < 0.4:
+                    op["printopts_scoped"] = True      # `with np.printoptions(...)`: restored after the call
+                if rng.random() < sw.get("p_env", 0.0) * 0.7:
+                    op["loglevel"] = rng.choice(["DEBUG", "DEBUG", "INFO"])
             return op
         return self.stamp(self.ad.gen_mk_snaps(self, rng), rng)
 
@@ -453,6 +472,18 @@ class World(WorldBase):
         """A client changes one of its own arrays in place between two calls (a scan over wave
         vectors stepping one buffer, a field rescaled, two particles swapped) and then repeats a
         recent call that was given that array: the result must be the one for the new content."""
+        if rng.random() < 0.3:
+            # the client post-processes a result it holds, in place (normalises it, rescales it):
+            # its own array - but if the library handed out its internal state, later calls change
+            held = sorted(n for n, e in self.pool.items() if e.kind == "arr" and e.tag.get("result") and e.tag.get("role") != "held"
+                          and isinstance(e.value, np.ndarray) and e.value.dtype.kind in "fc" and e.value.size and e.value.flags.writeable
+                          and e.src in self.history)
+            if held:
+                name = rng.choice(held)
+                producer = self.history[self.pool[name].src]
+                if producer.get("op") == "call":
+                    self.reissue.append(dict(producer, why="result_edit"))
+                return {"op": "edit", "target": name, "how": rng.randrange(3), "seed": rng.randrange(1 << 30)}
         cand = []          # (pool name, op that used it recently)
         for o in self.recent:
             for n in self.refs(o.get("args", {})):
@@ -551,6 +582,8 @@ class World(WorldBase):
             raise Refuse("no pool entry to edit")
         rng = np.random.default_rng(op["seed"])
         v = e.value
+        if isinstance(v, np.ndarray) and not v.flags.writeable:
+            raise Refuse("read-only array")
         how = op["how"]
         role = e.tag.get("role")
         if e.kind == "snaps":
@@ -595,6 +628,29 @@ class World(WorldBase):
         self.history[op["id"]] = op
         root = op["target"].split(".")[0]
         self.edits[root] = sorted(set(self.edits.get(root, []) + [op["id"]]))
+        if not self.replica:
+            # no library code ran: whatever else changed shares memory with the edited array (a
+            # result that is a view of another result or of an input).  It is re-based, and the
+            # edit becomes part of its history too, so that the clean room replays it
+            for n2 in sorted(self.pool):
+                e2 = self.pool[n2]
+                if e2 is e or e2.base is None:
+                    continue
+                if e2.kind == "snaps":
+                    now = snaps_arrays(e2.value)
+                    changed = any(not same_bits(old, new) for (_l, old), (_l2, new) in zip(e2.base, now))
+                    if changed:
+                        e2.base = [(lab, copy.deepcopy(x)) for lab, x in now]
+                else:
+                    changed = not same_bits(e2.base, e2.value)
+                    if changed:
+                        e2.base = copy.deepcopy(e2.value)
+                if changed:
+                    r2 = n2.split(".")[0]
+                    self.edits[r2] = sorted(set(self.edits.get(r2, []) + [op["id"]]))
+                    self.ctx.probe("client_edit_reached_an_aliasing_pool_entry")
+        if e.tag.get("result"):
+            self.ctx.probe("client_edits_a_result_it_holds")
         self.ctx.probe("client_edits_in_place")
         self.ctx.probe(f"edit:{role or e.kind}")
         return f"{op['target']} how={how}"
@@ -684,6 +740,17 @@ class World(WorldBase):
         before = dirstate(ctx.root)
 
         def client_call():
+            if op.get("loglevel"):
+                ctx.probe("client_switched_library_logging_on")
+                with lib_logging(op["loglevel"]):
+                    return client_call2()
+            return client_call2()
+
+        def client_call2():
+            if op.get("printopts") and op.get("printopts_scoped"):
+                ctx.probe("client_changed_numpy_printoptions_scoped")
+                with np.printoptions(**op["printopts"]):
+                    return self.exec_call(op)
             if op.get("printopts"):
                 np.set_printoptions(**op["printopts"])
                 ctx.probe("client_changed_numpy_printoptions")
@@ -763,6 +830,20 @@ class World(WorldBase):
             # long-lived object after a call differ from the clean room's
             same = canon(obj_state(self.pool[op["obj"]].value)) == rep["state"]
             ctx.probe("object_state_equals_clean_room" if same else f"object_state_differs_from_clean_room:{tag}")
+        # ---- the same inputs, spelled another way: same result as the original call
+        if op.get("respell") is not None and op["respell"] in self.plain_by_id:
+            ids0, plain0 = self.plain_by_id[op["respell"]]
+            if ids0 == ids:            # nothing the call depends on was edited or rewritten in between
+                why = close_plain(plain0, live_plain)
+                ctx.probe("respelled_call_compared")
+                if why:
+                    raise Violation(f"C18/I2-respelled-differs:{tag}",
+                                    f"the same inputs spelled another way (dict items in the opposite order, plain numbers as numpy "
+                                    f"scalars) give another result: {why}; args={self.brief(op)}")
+        if "obj" not in op and not self.replica:
+            self.plain_by_id[op["id"]] = (ids, copy.deepcopy(live_plain))
+            for k in sorted(self.plain_by_id)[:-8]:
+                del self.plain_by_id[k]
         # ---- I3: the file holds what was returned
         n3 = a.check_files(self, op, res)
         if n3:
@@ -910,6 +991,50 @@ class World(WorldBase):
             yield o
         # (bundle recipes are not shrunk: later operations carry sizes derived from them, and a
         # replay that is internally inconsistent could keep a signature for the wrong reason)
+
+
+def close_plain(a, b, rtol=1e-9, atol=1e-12, where="result"):
+    """None if two canonical results agree (floats to rtol / atol: another insertion order may
+    change a summation order), else a short description of the first disagreement."""
+    import pandas as pd
+    if isinstance(a, pd.DataFrame) or isinstance(b, pd.DataFrame):
+        if not (isinstance(a, pd.DataFrame) and isinstance(b, pd.DataFrame)):
+            return f"{where}: {type(a).__name__} vs {type(b).__name__}"
+        if [str(c) for c in a.columns] != [str(c) for c in b.columns] or a.shape != b.shape:
+            return f"{where}: columns / shape {list(a.columns)} {a.shape} vs {list(b.columns)} {b.shape}"
+        return close_plain(a.to_numpy(), b.to_numpy(), rtol, atol, where)
+    if isinstance(a, (list, tuple)) and isinstance(b, (list, tuple)):
+        if len(a) != len(b):
+            return f"{where}: length {len(a)} vs {len(b)}"
+        for i, (x, y) in enumerate(zip(a, b)):
+            w = close_plain(x, y, rtol, atol, f"{where}[{i}]")
+            if w:
+                return w
+        return None
+    if isinstance(a, dict) and isinstance(b, dict):
+        if sorted(map(str, a)) != sorted(map(str, b)):
+            return f"{where}: keys differ"
+        for k in a:
+            w = close_plain(a[k], b[k], rtol, atol, f"{where}[{k!r}]")
+            if w:
+                return w
+        return None
+    if isinstance(a, (np.ndarray, np.generic, int, float, complex)) and isinstance(b, (np.ndarray, np.generic, int, float, complex)) \
+            and not isinstance(a, bool) and not isinstance(b, bool):
+        x, y = np.asarray(a), np.asarray(b)
+        if x.shape != y.shape:
+            return f"{where}: shape {x.shape} vs {y.shape}"
+        if x.dtype == object or y.dtype == object:
+            return None if all(str(p) == str(q) for p, q in zip(x.ravel(), y.ravel())) else f"{where}: object arrays differ"
+        if x.dtype.kind in "US" or y.dtype.kind in "US":
+            return None if np.array_equal(x, y) else f"{where}: text arrays differ"
+        with np.errstate(all="ignore"):
+            ok = np.isclose(x, y, rtol=rtol, atol=atol, equal_nan=True)
+        if not np.all(ok):
+            k = int(np.argmin(ok.ravel()))
+            return f"{where}: {int((~ok).sum())} of {ok.size} values differ, first at flat index {k}: {x.ravel()[k]!r} vs {y.ravel()[k]!r}"
+        return None
+    return None if (a == b) is True or a is b or (a is None and b is None) or str(a) == str(b) else f"{where}: {a!r} vs {b!r}"
 
 
 def kind_of(path):
